@@ -265,7 +265,20 @@ class Ctx:
                          "obligations": 0, "discharged": 0, "checker_cmd": "", "trusted_base": []}
         self.assumptions = []
         self.known = [k for k in load_known_findings() if k.get("property") == pid]
-        self.outdir = os.path.join(OUT, pid)
+        # one work/replay directory per run: two runs of the same check (different seeds,
+        # tiers or trees) must not step on each other's files
+        base = os.path.join(OUT, pid)
+        os.makedirs(base, exist_ok=True)
+        now = time.time()
+        for d in os.listdir(base):
+            p = os.path.join(base, d)
+            try:
+                if d.startswith("run-") and now - os.path.getmtime(p) > 6 * 3600:
+                    import shutil
+                    shutil.rmtree(p, ignore_errors=True)
+            except OSError:
+                pass
+        self.outdir = os.path.join(base, "run-%d-%d" % (int(now), os.getpid()))
         os.makedirs(self.outdir, exist_ok=True)
         self.notes = {}
         self.broken = []           # proof obligations / correspondences that no longer check
@@ -331,9 +344,13 @@ class Ctx:
     def violation(self, key, what, replay_obj):
         """A case on which the PROPERTY fails on the real code."""
         for k in self.known:
-            if k.get("status", "known") == "known" and k.get("key") == key:
-                if key not in [h["key"] for h in self.known_hits]:
-                    self.known_hits.append({"key": key, "what": k.get("what", what)})
+            if k.get("status", "known") != "known":
+                continue
+            # `key_regex` (optional) lets a finding survive renames of internal identifiers that
+            # the key embeds; it must still pin the mechanism (kind of report, site class)
+            if k.get("key") == key or (k.get("key_regex") and re.fullmatch(k["key_regex"], key)):
+                if k.get("key") not in [h["key"] for h in self.known_hits]:
+                    self.known_hits.append({"key": k.get("key"), "what": k.get("what", what)})
                 return
         if any(v["key"] == key for v in self.violations):
             return
